@@ -107,13 +107,14 @@ impl BlobStore for MemoryTier {
     }
 
     fn put_verified(&mut self, expected: BlobHash, bytes: &[u8]) -> Result<(), CasError> {
-        // Fast path: blob already stored — skip hashing entirely.
-        if self.blobs.contains_key(&expected) {
-            return Ok(());
-        }
+        // Verify first: mismatching bytes are refused even when a blob with the
+        // expected hash is already stored.
         let computed = blob_hash(bytes);
         if computed != expected {
             return Err(CasError::HashMismatch { expected, computed });
+        }
+        if self.blobs.contains_key(&expected) {
+            return Ok(());
         }
         self.byte_count += bytes.len();
         self.blobs.insert(computed, Arc::from(bytes));
